@@ -156,6 +156,19 @@ def run(ctx, rep):
         if imp["self_adt"] == "parse::ParsingTable" and nm(imp.get("trait") or "") == "iter::IntoIterator":
             names = sorted(i["name"] for i in imp["items"] if i["name"] not in ("Item", "IntoIter"))
             rep.require(names == ["into_iter"], "iterator", "no-override:IntoIterator", wh(imp["span"]), "implements only into_iter()", "IntoIterator impl has %s" % names)
+    # ---- the API surface of the two types: the inherent methods are exactly the judged ones (a further accessor - first(), last(),
+    # get_unchecked(), a cursor setter - is a way to read entries whose agreement with len / get / iteration nothing here establishes)
+    JUDGED = {"parse::ParsingTable::new", "parse::ParsingTable::iter", "parse::ParsingTable::len", "parse::ParsingTable::is_empty", "parse::ParsingTable::get",
+              "parse::ParsingIterator::new"}
+    n_api = 0
+    for fn_ in F.all_fns():
+        q_ = fn_["qual"]
+        if fn_.get("kind") == "Closure" or not fn_.get("reachable_pub") or not (q_.startswith("parse::ParsingTable::") or q_.startswith("parse::ParsingIterator::")):
+            continue      # (private helpers are seen through: the judged methods are analysed with them dissolved)
+        n_api += 1
+        rep.require(q_ in JUDGED, "table", "api-surface:%s" % q_, wh(fn_["span"]), "a judged method",
+                    "%s is a method of a lazy table / its iterator that no rule judges: UNRECOGNISED - its agreement with len() / get() / iteration is not established" % q_)
+    rep.floor("table", "inherent methods of ParsingTable / ParsingIterator", n_api, 6)
     # ---- aliases and immutability
     al = {a["path"]: norm(a["target"]) for a in F["aliases"]}
     for name, item in (("relocation::RelIterator", "relocation::Rel"), ("relocation::RelaIterator", "relocation::Rela")):
